@@ -105,9 +105,12 @@ Fixpoint et_parse (f : fel) : xel :=
   end.
 
 (* ---------- wsvg ---------- *)
-(* good_attribs = {'d': ps}; for key in attributes[i]: if key != 'd': update *)
+(* good_attribs = {'d': ps}; for key in attributes[i]: if key != 'd': update.
+   svgwrite leaves the d attribute out when the d-string is empty (the empty
+   Path()): the element is written <path id=... /> *)
 Definition path_attrs (d : string) (a : dict) : dict :=
-  update [("d", d)] (remove_key "d" a).
+  if String.eqb d "" then remove_key "d" a
+  else update [("d", d)] (remove_key "d" a).
 
 Definition svgwrite_defaults : dict :=
   [("baseProfile", "full"); ("version", "1.1");
@@ -220,6 +223,14 @@ Definition style_entries (c : cfg) (a : dict) : option dict :=
   | Some st => style_assign c (split_on ";" st) []
   end.
 
+(* get('d', '') *)
+Definition dget (a : dict) : string := match lookup "d" a with Some d => d | None => "" end.
+(* values['d'] = path2pathd(...): a path element always gets a 'd' entry, '' when
+   it has no d attribute.  (path2pathd looks at the element's own attributes
+   since the repair of the attribute inheritance, at the inherited values
+   before; the two agree unless an ancestor carries a d attribute.) *)
+Definition sax_path_values (values : dict) : dict := update values [("d", dget values)].
+
 (* values = copy of the parent's values, updated with the element's attributes,
    then with the declarations of its style attribute.  An element whose style
    raises is marked None: the constructor raises. *)
@@ -230,7 +241,7 @@ Fixpoint sax_values (c : cfg) (inherited : dict) (e : xel) : list (option dict) 
       | None => [None]
       | Some st =>
           let values := update (update inherited a) st in
-          (if String.eqb (sax_name e) "path" then [Some values] else [])
+          (if String.eqb (sax_name e) "path" then [Some (sax_path_values values)] else [])
           ++ flat_map (sax_values c values) kids
       end
   end.
